@@ -281,6 +281,53 @@ Section KvSafe.
   Qed.
 End KvSafe.
 
+(* ------------------------------------------------------------ file names of any length *)
+
+Lemma crash_noop_prefix : forall w name k cut d,
+  crash (if w then [OOpenW name] else []) k cut d = d.
+Proof.
+  intros w name k cut d. destruct w; unfold crash.
+  - destruct k as [|[|k]]; reflexivity.
+  - destruct k; reflexivity.
+Qed.
+
+Section AllNames.
+  Variable W : Type.
+  Variable parse : content -> parsed W.
+  Variable meta_ok : content -> bool.
+  Variable accept : list (string * W) -> bool.
+
+  Lemma wallet_crash_safe_fs : forall w name h data d k cut,
+    hex8b h = true ->
+    let start := wallet_start W parse meta_ok accept in
+    let c := crash (service_ops_fs w name h data) k cut d in
+    start c = start d \/ start c = start (set name data d).
+  Proof.
+    intros w name h data d k cut Hh start c. subst c. unfold service_ops_fs.
+    destruct (tmp_creatable name).
+    - now apply wallet_crash_safe.
+    - left. now rewrite crash_noop_prefix.
+  Qed.
+
+  (* when the tmp file cannot be created the save changes nothing at all *)
+  Lemma long_name_save_is_noop : forall w name h data d k cut,
+    tmp_creatable name = false -> crash (service_ops_fs w name h data) k cut d = d.
+  Proof.
+    intros w name h data d k cut H. unfold service_ops_fs. rewrite H. apply crash_noop_prefix.
+  Qed.
+End AllNames.
+
+Lemma kv_crash_safe_fs : forall (K : Type) (parsekv : content -> option K) name h data d k cut,
+  let c := crash (service_ops_fs false name h data) k cut d in
+  kv_start K parsekv name c = kv_start K parsekv name d \/
+  kv_start K parsekv name c = kv_start K parsekv name (set name data d).
+Proof.
+  intros K parsekv name h data d k cut c. subst c. unfold service_ops_fs.
+  destruct (tmp_creatable name).
+  - now apply kv_crash_safe.
+  - left. now rewrite crash_noop_prefix.
+Qed.
+
 (* ------------------------------------------------------------ the unchanged tree is refuted *)
 
 Definition ex_old : content := [123; 49; 125]%Z.       (* {1} *)
